@@ -57,20 +57,24 @@ def gen_cfg(rnd, opts=None):
 
 
 def gen_rules(rnd, svcnames):
-    names = rnd.sample(["r1", "R2", "r3", "Ra", "rb", "RC", "a1", "Z9", "m5", "_x", "B-1"], rnd.randint(0, 6))
+    names = rnd.sample(["r1", "R2", "r3", "Ra", "rb", "RC", "a1", "Z9", "m5", "_x", "B-1",
+                        "n" * 62, "N" * 63, "q" * 64, "Q" * 65], rnd.randint(0, 6))
     rules = {}
     for nm in names:
         r = {}
         if rnd.random() < 0.7:
-            r["class"] = rnd.choice(["c1", "c2", "trusted", "Opers", "x" * rnd.choice([3, 40])])
+            r["class"] = rnd.choice(["c1", "c2", "trusted", "Opers", "x" * rnd.choice([3, 40]),
+                                     # at and around the size of the request's class field (CLASSLEN 63)
+                                     "".join(rnd.choice("abcdefghijklmnopqrstuvwxyz") for _ in range(rnd.choice([61, 62, 63, 64, 65, 100])))])
         if rnd.random() < 0.3:
-            r["account"] = rnd.choice(["oper", "op*", "o?er", "*", "nobody", "oper:1", "acct*", "?*"])
+            r["account"] = rnd.choice(["oper", "op*", "o?er", "*", "nobody", "oper:1", "acct*", "?*", "op[e3]r", "[a-f]*", "acct[0-9]", "n[!a-n]body"])
         if rnd.random() < 0.4:
             r["address"] = gen_rule_address(rnd)
         if rnd.random() < 0.3:
-            r["username"] = rnd.choice(["joe", "j*", "~*", "*", "?oe", "id*"])
+            r["username"] = rnd.choice(["joe", "j*", "~*", "*", "?oe", "id*", "j[ao]e", "op[0-9]", "[~]joe", "u\\*r", "[!~]*"])
         if rnd.random() < 0.3:
-            r["hostname"] = rnd.choice(["*.example.org", "trusted.example.org", "*", "h?st*", "*.net"])
+            r["hostname"] = rnd.choice(["*.example.org", "trusted.example.org", "*", "h?st*", "*.net", "gw[12].example.org",
+                                        "dotted\\.example.net", "[a-c]*.org", "h[!0-9]st.net", "star\\*.org"])
         if rnd.random() < 0.3 and svcnames:
             s = rnd.choice(svcnames + ["none.example.org"])
             r["xreply_ok"] = rnd.choice([s, s.upper(), s.lower()])
@@ -151,16 +155,44 @@ def addr_near_rule(rnd, rules):
 
 
 def glob_instance(rnd, pat, limit):
-    """A string built from a glob pattern: an instance of it ('*' -> 0-5 characters, '?' -> one), or a near
-    miss (one letter in the other case, last character dropped, one character added at either end)."""
+    """A string built from a glob pattern: an instance of it ('*' -> 0-5 characters, '?' -> one, a bracket
+    expression -> one of its characters (or one outside it when negated), a backslash escape -> the escaped
+    character), or a near miss (one letter in the other case, last character dropped, one character added at
+    either end, a bracket position filled with a character from outside the set)."""
     out = []
-    for ch in pat:
+    j = 0
+    miss_bracket = rnd.random() < 0.15
+    while j < len(pat):
+        ch = pat[j]
         if ch == "*":
             out.append(word(rnd, rnd.randint(1, 5), HOSTCH) if rnd.random() < 0.8 else "")
         elif ch == "?":
             out.append(rnd.choice(HOSTCH))
+        elif ch == "\\" and j + 1 < len(pat):
+            j += 1
+            out.append(pat[j])
+        elif ch == "[" and "]" in pat[j + 2:]:
+            end = pat.index("]", j + 2)
+            body = pat[j + 1:end]
+            neg = body[:1] in "!^"
+            if neg:
+                body = body[1:]
+            members = set()
+            k = 0
+            while k < len(body):
+                if k + 2 < len(body) and body[k + 1] == "-":
+                    members |= set(chr(c) for c in range(ord(body[k]), ord(body[k + 2]) + 1))
+                    k += 3
+                else:
+                    members.add(body[k])
+                    k += 1
+            outside = [c for c in HOSTCH if c not in members] or ["_"]
+            inside = sorted(members) or ["x"]
+            out.append(rnd.choice(outside if (neg != miss_bracket) else inside))
+            j = end
         else:
             out.append(ch)
+        j += 1
     s = "".join(out)
     k = rnd.random()
     if k < 0.12 and any(c.isalpha() for c in s):
@@ -466,8 +498,17 @@ class Gen:
                 if near:
                     txt, val = near
                     self.fire("addr_near_rule")
-            return {"op": "announce", "cid": cid, "addr": txt, "port": r.choice([1, 1024, 6667, 65535, r.randrange(1, 65536)]),
-                    "laddr": r.choice(["0::1", "127.0.0.1", "192.0.2.1"]), "lport": r.choice([6667, 7000, 7701])}
+            op = {"op": "announce", "cid": cid, "addr": txt, "port": r.choice([1, 1024, 6667, 65535, r.randrange(1, 65536)]),
+                  "laddr": r.choice(["0::1", "127.0.0.1", "192.0.2.1"]), "lport": r.choice([6667, 7000, 7701])}
+            last = getattr(self, "last_announce", {})
+            if cid in last and r.random() < 0.3:
+                # the id comes back from the very same endpoints (a reconnect), or from the same address
+                k = r.random()
+                op = dict(last[cid]) if k < 0.6 else dict(op, addr=last[cid]["addr"]) if k < 0.8 else dict(last[cid], port=op["port"])
+                self.fire("announce_same_endpoints" if k < 0.6 else "announce_same_address")
+            last[cid] = op
+            self.last_announce = last
+            return op
         if a == "adv":
             dl = sorted(i.deadline - w.now for i in w.live.values() if i.deadline is not None and not i.expired)
             # deadlines of finished instances whose id is live again: a timer that outlived its request would fire here
